@@ -251,6 +251,12 @@ def handleRep (args : List String) : String :=
     | _, _, _ => "bad-op"
   | _ => "bad-op"
 
+def showHex (bs : List UInt8) : String :=
+  if bs.isEmpty then "_" else
+  String.ofList (bs.flatMap (fun b =>
+    let d (n : Nat) : Char := if n < 10 then Char.ofNat (48 + n) else Char.ofNat (87 + n)
+    [d (b.toNat / 16), d (b.toNat % 16)]))
+
 /-- recogniser of a checked regex certificate: a byte is viable iff the successor state is live -/
 def dfaRec (d : LlgVerif.Dfa) : Rec Nat where
   step := fun q b => let q' := d.next q b; if d.live[q']! then some q' else none
@@ -283,6 +289,10 @@ def handleEng (st : St) (args : List String) : St × String :=
       | some s' => ({ st with engSt := s', engHist := st.engSt :: st.engHist }, "ok")
       | none => (st, "err")
     | _, _ => (st, "bad-op")
+  | ["ff"] =>
+    match st.engCfg with
+    | some c => (st, s!"ok {showHex (forceBytes c.recog c.accepting 32 4096 st.engSt.st).1}")
+    | none => (st, "no-engine")
   | ["validate", ts] =>
     match st.engCfg, parseNatList? ts with
     | some c, some ts => (st, s!"ok {c.validate st.engSt ts}")
@@ -313,12 +323,6 @@ def handleSlice (st : St) (args : List String) : St × String :=
       (st, s!"ok {showNatList (canonSet r)}")
     | _, _, _ => (st, "bad-op")
   | _ => (st, "bad-op")
-
-def showHex (bs : List UInt8) : String :=
-  if bs.isEmpty then "_" else
-  String.ofList (bs.flatMap (fun b =>
-    let d (n : Nat) : Char := if n < 10 then Char.ofNat (48 + n) else Char.ofNat (87 + n)
-    [d (b.toNat / 16), d (b.toNat % 16)]))
 
 /-- stop controller model: `init <stop strings hex list> <stop token list>`, `tok id hex`,
     `c id` -> output bytes (hex) and stopped flag -/
